@@ -140,6 +140,7 @@ func init() {
 
 		c08ConcFacts(e, la, text)
 		c08FwFacts(e, la, text)
+		c08EventGlueFacts(e, la)
 		// the priority bands getPriorityClassByPriority compares with (Model/C08Glue.lean classByPriority)
 		for _, n := range []string{"PriorityProdValueMax", "PriorityProdValueMin", "PriorityMidValueMax", "PriorityMidValueMin",
 			"PriorityBatchValueMax", "PriorityBatchValueMin", "PriorityFreeValueMax", "PriorityFreeValueMin"} {
@@ -404,4 +405,145 @@ func c08FwFacts(e *ext, la string, text func(ast.Node) string) {
 	}
 	sort.Strings(cs)
 	fmt.Fprintf(&e.out, "def customThresholdsCallers : List String := [%s]\n", strings.Join(cs, ", "))
+}
+
+// C08 event glue the model takes for granted (ext6):
+//   * estimator.estimatedPodUsed calls resourceapi.PodRequests / PodLimits with an EMPTY PodResourcesOptions literal: the
+//     estimate of a cached pod is a function of the pod SPEC (podAssignCache.OnUpdate renews a cached pod when spec or
+//     conditions change, not on a status-only update) - the fields set in the literals are listed,
+//   * podAssignCache.NodeMetricHandler: AddFunc and UpdateFunc forward the (new) object to AddOrUpdateNodeMetric whatever
+//     the old object is: UpdateFunc does not use its first parameter, calls no comparison (…Equal…) and no other method of
+//     the cache (the report interval is read from the SPEC of the NodeMetric, so no update may be dropped by looking at the
+//     status).
+func c08EventGlueFacts(e *ext, la string) {
+	strs := func(xs []string) string {
+		q := make([]string, len(xs))
+		for i, x := range xs {
+			q[i] = leanStr(x)
+		}
+		return "[" + strings.Join(q, ", ") + "]"
+	}
+	fields, calls := map[string]bool{}, map[string]bool{}
+	if fd := e.funcDecl(la+"/estimator", "", "estimatedPodUsed"); fd == nil || fd.Body == nil {
+		e.fail("estimator.estimatedPodUsed not found")
+	} else {
+		ast.Inspect(fd.Body, func(n ast.Node) bool {
+			c, ok := n.(*ast.CallExpr)
+			if !ok {
+				return true
+			}
+			sel, ok := c.Fun.(*ast.SelectorExpr)
+			if !ok || (sel.Sel.Name != "PodRequests" && sel.Sel.Name != "PodLimits") {
+				return true
+			}
+			calls[sel.Sel.Name] = true
+			if len(c.Args) != 2 {
+				fields["<arity>"] = true
+				return true
+			}
+			lit, ok := c.Args[1].(*ast.CompositeLit)
+			if !ok {
+				fields["<not a literal>"] = true
+				return true
+			}
+			for i, el := range lit.Elts {
+				if kv, ok := el.(*ast.KeyValueExpr); ok {
+					if id, ok := kv.Key.(*ast.Ident); ok {
+						fields[id.Name] = true
+						continue
+					}
+				}
+				fields[fmt.Sprintf("#%d", i)] = true
+			}
+			return true
+		})
+	}
+	keys := func(m map[string]bool) []string {
+		xs := []string{}
+		for k := range m {
+			xs = append(xs, k)
+		}
+		sort.Strings(xs)
+		return xs
+	}
+	fmt.Fprintf(&e.out, "def podResourcesCalls : List String := %s\n", strs(keys(calls)))
+	fmt.Fprintf(&e.out, "def podResourcesOptionFields : List String := %s\n", strs(keys(fields)))
+
+	oldUsed, equalCalls := true, -1
+	var addCalls, updCalls []string
+	if fd := e.funcDecl(la, "podAssignCache", "NodeMetricHandler"); fd == nil || fd.Body == nil {
+		e.fail("podAssignCache.NodeMetricHandler not found")
+	} else {
+		recv := ""
+		if fd.Recv != nil && len(fd.Recv.List) > 0 && len(fd.Recv.List[0].Names) > 0 {
+			recv = fd.Recv.List[0].Names[0].Name
+		}
+		cacheCalls := func(fl *ast.FuncLit) []string {
+			xs := []string{}
+			ast.Inspect(fl.Body, func(n ast.Node) bool {
+				if c, ok := n.(*ast.CallExpr); ok {
+					if sel, ok := c.Fun.(*ast.SelectorExpr); ok {
+						if id, ok := sel.X.(*ast.Ident); ok && id.Name == recv {
+							xs = append(xs, sel.Sel.Name)
+						}
+					}
+				}
+				return true
+			})
+			return xs
+		}
+		found := 0
+		ast.Inspect(fd.Body, func(n ast.Node) bool {
+			kv, ok := n.(*ast.KeyValueExpr)
+			if !ok {
+				return true
+			}
+			key, ok := kv.Key.(*ast.Ident)
+			fl, ok2 := kv.Value.(*ast.FuncLit)
+			if !ok || !ok2 {
+				return true
+			}
+			switch key.Name {
+			case "AddFunc":
+				found++
+				addCalls = cacheCalls(fl)
+			case "UpdateFunc":
+				found++
+				updCalls = cacheCalls(fl)
+				oldName := ""
+				if ps := fl.Type.Params; ps != nil && len(ps.List) > 0 && len(ps.List[0].Names) > 0 {
+					oldName = ps.List[0].Names[0].Name
+				}
+				oldUsed, equalCalls = false, 0
+				ast.Inspect(fl.Body, func(n ast.Node) bool {
+					switch x := n.(type) {
+					case *ast.Ident:
+						if oldName != "" && oldName != "_" && x.Name == oldName {
+							oldUsed = true
+						}
+					case *ast.CallExpr:
+						name := ""
+						switch f := x.Fun.(type) {
+						case *ast.SelectorExpr:
+							name = f.Sel.Name
+						case *ast.Ident:
+							name = f.Name
+						}
+						if strings.Contains(name, "Equal") {
+							equalCalls++
+						}
+					}
+					return true
+				})
+			}
+			return false
+		})
+		if found != 2 {
+			e.fail("NodeMetricHandler: AddFunc / UpdateFunc function literals not found")
+		}
+	}
+	fmt.Fprintf(&e.out, "def metricAddCacheCalls : List String := %s\n", strs(addCalls))
+	fmt.Fprintf(&e.out, "def metricUpdateCacheCalls : List String := %s\n", strs(updCalls))
+	fmt.Fprintf(&e.out, "def metricUpdateOldUsed : Bool := %v\n", oldUsed)
+	fmt.Fprintf(&e.out, "def metricUpdateEqualCalls : Int := %d\n", equalCalls)
 }
